@@ -230,6 +230,18 @@ def _run(ctx):
                 ctx.case(root, nontrivial=nontrivial(root))
             ctx.count("sibling_sequences")
     ctx.exhaustive["sibling_sequences_len_le_%d_over_plain_tf0_tf1_tf3" % maxL] = True
+    # document roots that only exist after expansion (or that an empty expansion sits next to)
+    body = gen.TAG("body", {"k": "text", "s": "bt;"}, {"k": "dep", "name": "da", "version": "1.0", "script": [{"src": "r.js"}]}, via_fn=False)
+    html = gen.TAG("html", gen.TAG("head", gen.TAG("title", {"k": "text", "s": "T"}), via_fn=False), body, via_fn=False)
+    empty = {"k": "tf", "ret": "list", "c": []}
+    roots = [[empty, body], [body, empty], [empty, html], [{"k": "tf", "ret": "list", "c": [body]}], [{"k": "tf", "ret": "one", "c": [body]}],
+             [{"k": "tf", "ret": "one", "c": [html]}], [{"k": "tf", "ret": "list", "c": [html]}, empty], [empty, empty]]
+    for i, c in enumerate(roots):
+        if ctx.mine(i):
+            root = {"k": "list", "t": "taglist", "c": c}
+            ctx.guard(check_case, ctx, root, witness={"recipe": root})
+            ctx.case(root, nontrivial=True)
+            ctx.count("expansion_defined_roots")
     ex = gen.TAG("div", {"k": "text", "s": "a"}, {"k": "tf", "ret": "list", "c": [{"k": "text", "s": "x"}, gen.TAG("b", ws=False)]}, {"k": "tf", "ret": "list", "c": []})
     ctx.sample({"recipe": ex, "output": gen.build(ex).render()["html"]})
     # 2. random trees
